@@ -982,47 +982,3 @@ func (a *c17Pkg) skipReturns(fn *c17Fn, nodes []ast.Node) string {
 func (a *c17Pkg) onlyCalled(f *types.Func) bool {
 	return !f.Exported() && len(a.calls[f]) > 0 && a.refs[f] == len(a.calls[f])
 }
-
-// mentionsType reports whether the declaration of fn (signature or body) mentions the named type path.
-func (fn *c17Fn) mentionsType(path string) bool {
-	info := fn.a.info
-	found := false
-	ast.Inspect(fn.Decl, func(n ast.Node) bool {
-		if found {
-			return false
-		}
-		if id, ok := n.(*ast.Ident); ok {
-			if tn, ok := info.Uses[id].(*types.TypeName); ok && namedPath(tn.Type()) == path {
-				found = true
-			}
-		}
-		return true
-	})
-	return found
-}
-
-// polygonOnly: fn handles orb.MultiPolygon values itself, or is an unexported helper called only from such functions.
-func (a *c17Pkg) polygonOnly(fn *c17Fn, seen map[*c17Fn]bool) bool {
-	if v, ok := a.polyMem[fn]; ok {
-		return v > 0
-	}
-	if seen[fn] {
-		return true
-	}
-	seen[fn] = true
-	res := fn.mentionsType(c17MultiPolygonPath)
-	if !res && a.onlyCalled(fn.Obj) {
-		res = true
-		for _, cs := range a.calls[fn.Obj] {
-			if !a.polygonOnly(cs.fn, seen) {
-				res = false
-			}
-		}
-	}
-	if res {
-		a.polyMem[fn] = 1
-	} else {
-		a.polyMem[fn] = -1
-	}
-	return res
-}
